@@ -293,14 +293,16 @@ impl<'ccx, 'tcx: 'ccx> TyGenContext<'ccx, 'tcx> {
         }
 
         let param_decls = {
+            // We only need type info for setters (static ones are wrapped in a lambda)
+            // and for constructors, and for those only when the type isn't opaque
             if matches!(
                 method.attrs.special_method,
-                Some(hir::SpecialMethod::Constructor) | Some(hir::SpecialMethod::Setter(_)) // We only need type info for constructors or certain setters
-            ) && !matches!(
-                // and even then, only when the type isn't opaque
-                id,
-                TypeId::Opaque(_)
-            ) {
+                Some(hir::SpecialMethod::Setter(_))
+            ) || (matches!(
+                method.attrs.special_method,
+                Some(hir::SpecialMethod::Constructor)
+            ) && !matches!(id, TypeId::Opaque(_)))
+            {
                 Some(
                     method
                         .params
